@@ -264,7 +264,8 @@ func c19Faithful(c *core.Ctx) {
 		maxArgs = 4
 	}
 	gen := func(yield func(c19FCase) bool) {
-		vals := []string{"v", "false", "[a b]", "{a,b}", "(a=b c)"}
+		// groups nested inside a group of the same kind, with a separator after the inner group
+		vals := []string{"v", "false", "[a b]", "{a,b}", "(a=b c)", "[[a b] c,d]", "((a,b),c d)"}
 		var argOpts []c19Arg
 		for _, n := range []string{"required", "Required", "qualifier", "x"} {
 			argOpts = append(argOpts, c19Arg{Name: n, Bare: true})
@@ -297,7 +298,7 @@ func c19Faithful(c *core.Ctx) {
 			}
 			return true
 		}
-		for _, value := range []string{"", "v", "[x,y]", "a b"} {
+		for _, value := range []string{"", "v", "[x,y]", "a b", "[[1,2],[3,4]]"} {
 			if !rec(value, nil) {
 				return
 			}
